@@ -1009,11 +1009,35 @@ def shared_source_probe(seed, count=150):
     return bad, len(real_lines)
 
 
+def eval_count_probe(scripts):
+    """map's f, filter's predicate and scan's reducer are user code: each must be called exactly once per datum
+    the operator receives (a closure with interior state - distinct-until-changed, every k-th - sees every extra
+    call).  The harness counts the calls (CB_EVALS); the expectation is the number of Data inputs in the trace."""
+    mine = [s for s in scripts if header_op(s) in ("map", "filter", "scan")]
+    out = []
+    for part in parallel_map(
+            lambda ch: [l.strip() for l in sh([BIN + "/cbharness-plain", "seq"], inp="\n".join(ch) + "\n",
+                                              env={"CB_EVALS": "1"}).stdout.split("\n")][:len(ch)] if ch else [],
+            chunked(mine, 16)):
+        out += part
+    bad = []
+    for s, t in zip(mine, out):
+        m = re.search(r"evals:(\d+)", t)
+        want = len(re.findall(r"(?:^|[ :])>d0/", t))
+        if not m or int(m.group(1)) != want:
+            bad.append((s, want, m.group(1) if m else "?", t))
+    return bad, len(mine)
+
+
 def c07_extra(spec, scripts, real, variant, tier):
     bad, n = big_count_probe()
     viols = [(p_, "C07:BigCount", dict(pipeline=p_, expected_from_list_function=a, observed_on_crate=b))
              for p_, a, b in bad[:3]]
-    return viols, dict(big_count_pipelines=n, big_count_failures=len(bad))
+    ebad, ne = eval_count_probe(scripts)
+    viols += [(s_, "C07:ClosureCalls", dict(script=s_, data_received=w_, closure_calls=g_, crate_trace=t_))
+              for s_, w_, g_, t_ in ebad[:3]]
+    return viols, dict(big_count_pipelines=n, big_count_failures=len(bad),
+                       closure_call_scripts=ne, closure_call_mismatches=len(ebad))
 
 
 PROPS["C07"]["extra_check"] = c07_extra
